@@ -154,7 +154,9 @@ pub fn check_v6(c: &Chain, first: u8, mode: &str, ctx: &mut Ctx, input: &dyn Fn(
     if let Some(nhr) = &out.nh {
         let same = match (nhr, &wr) {
             (Ok(_), Ok(())) => true,
-            (Err(a), Err(b)) => a == b,
+            // both fail: each error has to be an honest one (judged against the reference walk); that the
+            // two functions name the same one of several simultaneous faults is not demanded
+            (Err(_), Err(b)) => against_ref(&rw, &Err(b.clone())).is_none(),
             _ => false,
         };
         if !same {
@@ -362,7 +364,9 @@ pub fn check_v4(c: &Chain, first: u8, mode: &str, ctx: &mut Ctx, input: &dyn Fn(
     if let Some(nhr) = &out.nh {
         let same = match (nhr, &wr) {
             (Ok(_), Ok(())) => true,
-            (Err(a), Err(b)) => a == b,
+            // both fail: each error has to be an honest one (judged against the reference walk); that the
+            // two functions name the same one of several simultaneous faults is not demanded
+            (Err(_), Err(b)) => against_ref(&rw, &Err(b.clone())).is_none(),
             _ => false,
         };
         if !same {
